@@ -244,6 +244,39 @@ def _shoelace_sign(chain):
     return s > 0
 
 
+def hidden_fingerprint(objs):
+    """Scalar private attributes (caches, flags) reachable from the operands, by reflection:
+    used only to *place* faults in the windows where such state is being written."""
+    from shapepy.polygon import Point2D
+
+    out = []
+    seen = set()
+
+    def walk(o, depth):
+        if id(o) in seen or depth > 5:
+            return
+        seen.add(id(o))
+        try:
+            items = sorted(vars(o).items())
+        except TypeError:
+            return
+        for k, v in items:
+            if isinstance(v, (type(None), bool, int, float, str, Fraction)):
+                out.append((type(o).__name__, k, repr(v)))
+            elif isinstance(v, Point2D):
+                continue
+            elif isinstance(v, (tuple, list)):
+                for x in v:
+                    if type(x).__module__.startswith("shapepy") and not isinstance(x, Point2D):
+                        walk(x, depth + 1)
+            elif type(v).__module__.startswith("shapepy"):
+                walk(v, depth + 1)
+
+    for o in objs:
+        walk(o, 0)
+    return tuple(out)
+
+
 def _tables_fingerprint():
     out = []
     for owner, name, table in faults.module_dicts():
@@ -277,15 +310,26 @@ def count_pass(case, mode="structural", cold=False):
             last[0] = fp
             dirty.append(n)
 
-    outcome, payload, info = mon.run(lambda: ops.perform(case["step"], operands), mode=mode,
+    hidden = []
+    lasth = [hidden_fingerprint(objs)]
+
+    def watch_structural(n):
+        watch(n)
+        fp = hidden_fingerprint(objs)
+        if fp != lasth[0]:
+            lasth[0] = fp
+            hidden.append(n)
+
+    mon_mode = "structural" if mode == "structural-cold" else mode
+    outcome, payload, info = mon.run(lambda: ops.perform(case["step"], operands), mode=mon_mode,
                                      trace=True,
-                                     watch=watch if mode == "structural" else (watch_tables if mode == "tables" else None))
+                                     watch=watch_structural if mon_mode == "structural" else (watch_tables if mode == "tables" else None))
     ans = ops.normalise(outcome, payload)
     if cold:
         faults.cache_drop()
         pan0 = panel(build_case(case))
     return {"count": info["count"], "trace": info["trace"], "dirty": dirty, "answer": ans,
-            "panel": pan0, "values": vals}
+            "panel": pan0, "values": vals, "hidden": hidden}
 
 
 def inject(case, k, mode, exc_name, ref, deep, k2=None, cold=False):
@@ -304,7 +348,8 @@ def inject(case, k, mode, exc_name, ref, deep, k2=None, cold=False):
     mon = faults.Monitor.get()
     operands = operand_list(case, objs)
     exc = faults.ERROR_KINDS[exc_name]
-    outcome, payload, info = mon.run(lambda: ops.perform(case["step"], operands), mode=mode,
+    mon_mode = "structural" if mode == "structural-cold" else mode
+    outcome, payload, info = mon.run(lambda: ops.perform(case["step"], operands), mode=mon_mode,
                                      target=k, exc=exc)
     if not info["fired"]:
         return "not-fired", "", None
@@ -312,7 +357,7 @@ def inject(case, k, mode, exc_name, ref, deep, k2=None, cold=False):
     status = "fired-ok" if outcome == "raise" else "swallowed-ok"
     if k2 is not None:
         # fault sequence: a second fault in the same operation on the surviving operands
-        outcome2, payload2, info2 = mon.run(lambda: ops.perform(case["step"], operands), mode=mode,
+        outcome2, payload2, info2 = mon.run(lambda: ops.perform(case["step"], operands), mode=mon_mode,
                                             target=k2, exc=exc)
         if info2["fired"]:
             site = info2["fired_site"]
@@ -504,7 +549,7 @@ def _worker_task(case, ks, mode, excs, deep_every):
     out = {"fired": 0, "not_fired": 0, "swallowed": 0, "violations": [], "harness": [], "sites": set(),
            "by_exc": {}}
     t_task = time.time()
-    cold = mode == "tables"
+    cold = mode in ("tables", "structural-cold")
     try:
         ref = count_pass(case, mode, cold=cold)
         for i, k in enumerate(ks):
@@ -547,9 +592,11 @@ def _count_task(case):
     try:
         ref = count_pass(case, "structural")
         allc = count_pass(case, "all")["count"]
+        coldp = count_pass(case, "structural-cold", cold=True)
         tab = count_pass(case, "tables", cold=True)
         tabc = tab["count"]
         return {"structural": ref["count"], "all": allc, "tables": tabc, "tables_dirty": tab["dirty"],
+                "cold": coldp["count"], "cold_hidden": coldp["hidden"], "hidden": ref["hidden"],
                 "dirty": ref["dirty"],
                 "answer_kind": ref["answer"][0]}
     finally:
@@ -644,6 +691,27 @@ def check(tier, seed, jobs):
             plan[i]["table_points"] = len(tk)
             for j in range(0, len(tk), 12):
                 tasks.append((i, "tables", tk[j:j + 12], ["interrupt", "memory"]))
+        # cold start, structural events: the windows in which a private cache / flag of an
+        # operand is being written (consecutive writes close together), plus a spread
+        ncold = counts[i].get("cold", 0)
+        if ncold and is_cat:
+            hw = counts[i].get("cold_hidden", [])
+            ck = set()
+            for a_ev, b_ev in zip(hw[:-1], hw[1:]):
+                if b_ev - a_ev <= 400:
+                    stepw = 1 if tier == "thorough" else max(1, (b_ev - a_ev) // 12)
+                    ck.update(range(a_ev, b_ev + 2, stepw))
+            for ev in hw:
+                ck.update((ev - 1, ev, ev + 1))
+            want = min(ncold, 300 if tier == "thorough" else 10)
+            ck.update(1 + ((seed * 13 + (j * ncold) // want) % ncold) for j in range(want))
+            ck = sorted(e for e in ck if 1 <= e <= ncold)
+            if tier == "quick" and len(ck) > 60:
+                ck = sorted(rng.sample(ck, 60))
+            plan[i]["cold_points"] = len(ck)
+            plan[i]["hidden_state_writes"] = len(hw)
+            for j in range(0, len(ck), 20):
+                tasks.append((i, "structural-cold", ck[j:j + 20], ["interrupt", "interrupt", "memory"]))
         # leaf events: seeded sample over all events
         nall = counts[i]["all"]
         m = (6 if tier == "quick" else 60) if is_cat else (3 if tier == "quick" else 12)
@@ -651,7 +719,7 @@ def check(tier, seed, jobs):
         tasks.append((i, "all", lk, ["interrupt", "memory"]))
     tasks.sort(key=lambda t: -counts[t[0]]["all"] * len(t[2]))  # expensive chunks first
     totals = {"fired": 0, "not_fired": 0, "swallowed": 0, "by_exc": {},
-              "by_mode": {"structural": 0, "all": 0, "tables": 0}}
+              "by_mode": {"structural": 0, "all": 0, "tables": 0, "structural-cold": 0}}
     sites = set()
     violations = []
     per_case_fired = {}
@@ -803,13 +871,13 @@ def _known_c11(known, v):
 def _minimise_k(case, v):
     """Lower k while the same kind of violation persists (binary descent over a few probes)."""
     try:
-        ref = count_pass(case, v["mode"], cold=v["mode"] == "tables")
+        ref = count_pass(case, v["mode"], cold=v["mode"] in ("tables", "structural-cold"))
         best = v
         for k in sorted(set([1, 2, 3, 5, 8, 13, 21, 34, 55, 89, 144, 233, 377, 610, 987])):
             if k >= best["k"]:
                 break
             status, detail, site = inject(case, k, v["mode"], v["exc"], ref, True, v.get("k2"),
-                                          cold=v["mode"] == "tables")
+                                          cold=v["mode"] in ("tables", "structural-cold"))
             if status == "VIOLATION":
                 best = dict(v, k=k, details=detail, site=list(site) if site else None)
                 break
@@ -856,9 +924,9 @@ def replay(doc):
         print("replay: the invalid-argument call no longer changes the shape")
         return 0
     case, fl = doc["case"], doc["fault"]
-    ref = count_pass(case, fl["mode"], cold=fl["mode"] == "tables")
+    ref = count_pass(case, fl["mode"], cold=fl["mode"] in ("tables", "structural-cold"))
     status, detail, site = inject(case, fl["k"], fl["mode"], fl["exc"], ref, True, fl.get("k2"),
-                                  cold=fl["mode"] == "tables")
+                                  cold=fl["mode"] in ("tables", "structural-cold"))
     print(f"replay: case {case['name']!r} fault {fl['exc']}@{fl['k']} ({fl['mode']}) site {site}: {status} {detail}")
     if status == "VIOLATION":
         print("REPRODUCED" if list(site or []) == list(fl.get("site") or []) else "reproduced at a different site")
